@@ -663,6 +663,10 @@ async fn accept_pace(a: &[String]) -> Vec<String> {
     // (`open_*().await` dropped before it is awaited: quinn ends the stream without a byte of
     // preamble) — not a stream of the session, and nothing the other streams may notice
     let abandon = arg(a, 7).parse::<usize>().unwrap_or(0);
+    // optional: `uni` / `bi` — the application accepts this kind first; it starts accepting the
+    // other kind only when every stream of the first kind has been returned (or 6 s have passed:
+    // `first=short`). The streams of the other kind pile up unaccepted meanwhile.
+    let first_kind = arg(a, 8).to_string();
     let fail = |e: String| {
         vec![
             format!("uni=0/{n_uni}"),
@@ -685,19 +689,30 @@ async fn accept_pace(a: &[String]) -> Vec<String> {
 
     // the accepting side
     let mut accept_tasks = vec![];
-    for (uni, n) in [(true, n_uni), (false, n_bi)] {
+    let first_in_time = Arc::new(Mutex::new(None::<bool>));
+    let mut kinds = vec![(true, n_uni), (false, n_bi)];
+    if first_kind == "bi" {
+        kinds.reverse();
+    }
+    let ordered = first_kind == "uni" || first_kind == "bi";
+    let mut first_done: Option<watch::Receiver<bool>> = None;
+    for (k, (uni, n)) in kinds.into_iter().enumerate() {
         if n == 0 {
             continue;
         }
         let accepted = Arc::new(AtomicUsize::new(0));
         let (done_tx, done_rx) = watch::channel(false);
         let done_tx = Arc::new(done_tx);
+        let gate = if ordered && k == 1 { first_done.clone() } else { None };
+        if ordered && k == 0 {
+            first_done = Some(done_rx.clone());
+        }
         for t in 0..tasks {
             let rng = Rng::new(
                 seed.wrapping_mul(1_000_003)
                     .wrapping_add(t as u64 * 2 + u64::from(uni)),
             );
-            accept_tasks.push(rt.spawn(pace_accept_task(
+            let task = pace_accept_task(
                 pair.server.clone(),
                 uni,
                 n,
@@ -709,7 +724,16 @@ async fn accept_pace(a: &[String]) -> Vec<String> {
                 done_rx.clone(),
                 deadline,
                 sh.clone(),
-            )));
+            );
+            let (gate, fit) = (gate.clone(), first_in_time.clone());
+            accept_tasks.push(rt.spawn(async move {
+                if let Some(mut g) = gate {
+                    let ok = tokio::time::timeout(Duration::from_millis(6000), g.wait_for(|d| *d)).await.is_ok();
+                    let mut f = lock(&fit);
+                    *f = Some(f.unwrap_or(true) && ok);
+                }
+                task.await
+            }));
         }
     }
 
@@ -790,6 +814,13 @@ async fn accept_pace(a: &[String]) -> Vec<String> {
         format!("dup={dup}"),
         format!("unknown={unknown}"),
     ];
+    if ordered {
+        obs.push(match *lock(&first_in_time) {
+            Some(true) => "first=ok".to_string(),
+            Some(false) => "first=short".to_string(),
+            None => "first=-".to_string(),
+        });
+    }
     if let Some(e) = &s.err {
         obs.push(format!("err={e}"));
     }
@@ -1404,6 +1435,16 @@ fn gen_c08(thorough: bool, rng: &mut Rng, emit: &mut dyn FnMut(&str, Vec<String>
     }
     let tasks = [1usize, 2, 8];
     let delays = [0u64, 1, 5];
+    // one kind accepted first while the other piles up unaccepted — within the transport's limit
+    // of 100 concurrent streams per kind, which the waiting kind must not exceed
+    for (nu, nb, first) in [(32usize, 8usize, "bi"), (8, 32, "uni"), (90, 10, "bi"), (10, 90, "uni"), (50, 50, "uni"), (50, 50, "bi")] {
+        for rt in RTS {
+            emit(
+                "accept.pace",
+                vec![s(rt), s(nu), s(nb), s(2), s(0), s(0), s(rng.below(1_000_000)), s(0), s(first)],
+            );
+        }
+    }
     if thorough {
         // the full grid four times over (schedules differ from run to run), then random shapes
         for _rep in 0..4 {
